@@ -662,7 +662,7 @@ def sections(ctx):
     thorough = ctx.thorough
     jobs = ctx.jobs
     rng = random.Random(ctx.seed)
-    n_ascii, n_utf8, n_odl = (500, 250, 250) if thorough else (32, 16, 16)
+    n_ascii, n_utf8, n_odl = (300, 150, 150) if thorough else (32, 16, 16)
     sep_count = 5 if thorough else 1
     gen = generated_labels(ctx.seed, n_ascii, n_utf8, n_odl)
     corp = [(t, k, rng.randrange(1 << 30)) for t, k in corpus_labels()]
